@@ -31,6 +31,11 @@ use ractor::{Actor, ActorProcessingErr, ActorRef, ActorStatus, MessagingErr, Sup
 
 type Ev = (u32, u32, u64); // (timer id, k, virtual µs)
 
+/// the message on which the target's handler returns `Err` (the actor FAILS: `ActorFailed`, no `post_stop`)
+const POISON: (u32, u32) = (u32::MAX, u32::MAX);
+/// ... and the message on which it PANICS (ractor catches the panic: same `ActorFailed`)
+const POISON_PANIC: (u32, u32) = (u32::MAX, u32::MAX - 1);
+
 #[derive(Default)]
 struct Shared {
     attempts: Vec<Ev>,
@@ -72,12 +77,25 @@ struct Ctx {
     clock: Clock,
     /// `true`: `post_stop` waits
     gate: Arc<tokio::sync::watch::Sender<bool>>,
+    /// `true`: `post_start` waits (the target stays `Starting`, its message loop has not begun)
+    start_gate: Arc<tokio::sync::watch::Sender<bool>>,
 }
 
 impl Ctx {
     fn handled(&self, m: (u32, u32)) {
         let t = self.clock.now();
         self.sh.lock().unwrap().handled.push((m.0, m.1, t));
+    }
+    async fn post_start(&self) {
+        let mut rx = self.start_gate.subscribe();
+        loop {
+            if !*rx.borrow() {
+                break;
+            }
+            if rx.changed().await.is_err() {
+                break;
+            }
+        }
     }
     async fn post_stop(&self) {
         let mut rx = self.gate.subscribe();
@@ -105,7 +123,17 @@ impl Actor for Target {
     async fn pre_start(&self, _me: ActorRef<Self::Msg>, _: ()) -> Result<(), ActorProcessingErr> {
         Ok(())
     }
+    async fn post_start(&self, _me: ActorRef<Self::Msg>, _s: &mut ()) -> Result<(), ActorProcessingErr> {
+        self.0.post_start().await;
+        Ok(())
+    }
     async fn handle(&self, _me: ActorRef<Self::Msg>, m: Self::Msg, _s: &mut ()) -> Result<(), ActorProcessingErr> {
+        if m == POISON {
+            return Err("poison".into());
+        }
+        if m == POISON_PANIC {
+            panic!("poison");
+        }
         self.0.handled(m);
         Ok(())
     }
@@ -126,7 +154,17 @@ impl ThreadLocalActor for TlTarget {
     async fn pre_start(&self, _me: ActorRef<Self::Msg>, ctx: Ctx) -> Result<Ctx, ActorProcessingErr> {
         Ok(ctx)
     }
+    async fn post_start(&self, _me: ActorRef<Self::Msg>, ctx: &mut Ctx) -> Result<(), ActorProcessingErr> {
+        ctx.post_start().await;
+        Ok(())
+    }
     async fn handle(&self, _me: ActorRef<Self::Msg>, m: Self::Msg, ctx: &mut Ctx) -> Result<(), ActorProcessingErr> {
+        if m == POISON {
+            return Err("poison".into());
+        }
+        if m == POISON_PANIC {
+            panic!("poison");
+        }
         ctx.handled(m);
         Ok(())
     }
@@ -240,15 +278,73 @@ impl TryFrom<(u32, u32)> for DMsg {
     }
 }
 
+/// a message type the target does not have: `ActorCell::send_message::<Wrong>` answers `InvalidActorType`
+struct Wrong(#[allow(dead_code)] u32, #[allow(dead_code)] u32);
+
 enum Handle {
     Send(JoinHandle<Result<(), MessagingErr<(u32, u32)>>>),
+    SendX(JoinHandle<Result<(), MessagingErr<Wrong>>>),
     SendD(JoinHandle<Result<(), MessagingErr<DMsg>>>),
     Unit(JoinHandle<()>),
 }
 
 struct TimerRec {
-    h: Handle,
+    /// `None`: the `JoinHandle` was dropped (the task is detached)
+    h: Option<Handle>,
+    /// taken at creation: aborts also after the `JoinHandle` is gone, and tells whether the task is finished
+    ah: tokio::task::AbortHandle,
     res: Option<String>,
+}
+
+impl TimerRec {
+    fn new(h: Handle) -> TimerRec {
+        let ah = match &h {
+            Handle::Send(j) => j.abort_handle(),
+            Handle::SendX(j) => j.abort_handle(),
+            Handle::SendD(j) => j.abort_handle(),
+            Handle::Unit(j) => j.abort_handle(),
+        };
+        TimerRec { h: Some(h), ah, res: None }
+    }
+    /// `JoinHandle::abort` while the handle is held, `AbortHandle::abort` after it was dropped
+    fn abort(&self) {
+        match &self.h {
+            Some(Handle::Send(h)) => h.abort(),
+            Some(Handle::SendX(h)) => h.abort(),
+            Some(Handle::SendD(h)) => h.abort(),
+            Some(Handle::Unit(h)) => h.abort(),
+            None => self.ah.abort(),
+        }
+    }
+}
+
+/// period sentinel: `Duration::MAX` (not a whole number of µs that fits u64)
+const PMAX: u64 = u64::MAX;
+/// the largest period expressible in µs: `Duration::from_micros(u64::MAX - 1)` ≈ 584 542 years
+const PHUGE: u64 = u64::MAX - 1;
+
+fn dur(p: u64) -> Duration {
+    if p == PMAX {
+        Duration::MAX
+    } else {
+        Duration::from_micros(p)
+    }
+}
+
+/// the period in µs as the model sees it
+fn ptxt(p: u64) -> String {
+    dur(p).as_micros().to_string()
+}
+
+fn pparse(w: &str) -> Option<u64> {
+    let v = w.parse::<u128>().ok()?;
+    if v == Duration::MAX.as_micros() {
+        Some(PMAX)
+    } else if v < PMAX as u128 {
+        Some(v as u64)
+    } else {
+        None
+    }
 }
 
 #[derive(Clone, Debug)]
@@ -263,6 +359,15 @@ enum Op {
     /// `exit_after` / `kill_after` through a `DerivedActorRef` (textual twins of the two above)
     Dea(u64),
     Dka(u64),
+    /// the free functions `ractor::time::{send_after, send_interval, exit_after, kill_after}` called
+    /// directly with an `ActorCell` (the message type is named by the caller)
+    Csa(u64),
+    Csi(u64),
+    Cea(u64),
+    Cka(u64),
+    /// the free functions `send_after` / `send_interval` with a message type that is not the target's
+    Xsa(u64),
+    Xsi(u64),
     Adv(u64),
     AdvAbort(u64, usize),
     AdvStop(u64),
@@ -275,19 +380,39 @@ enum Op {
     /// gate `post_stop` / open the gate
     Hold,
     PsRelease,
+    /// drop the `JoinHandle` of timer i (of a timer not yet created: it is dropped at creation, "fire and forget")
+    Drop(usize),
+    /// clock += d, then drop, before the time driver runs
+    AdvDrop(u64, usize),
+    /// cast a message on which the target's handler returns `Err`
+    Fail,
+    AdvFail(u64),
+    /// the same with a handler that panics
+    FailP,
+    AdvFailP(u64),
+    /// first op of a case: the target is spawned with `post_start` gated (it stays `Starting`)
+    StartHold,
+    /// the gate opens: `post_start` returns, the message loop begins
+    Started,
 }
 
 impl Op {
     fn text(&self) -> String {
         match self {
-            Op::Sa(p) => format!("sa {p}"),
-            Op::Si(p) => format!("si {p}"),
-            Op::Dsa(p) => format!("dsa {p}"),
-            Op::Dsi(p) => format!("dsi {p}"),
-            Op::Ea(p) => format!("ea {p}"),
-            Op::Ka(p) => format!("ka {p}"),
-            Op::Dea(p) => format!("dea {p}"),
-            Op::Dka(p) => format!("dka {p}"),
+            Op::Sa(p) => format!("sa {}", ptxt(*p)),
+            Op::Si(p) => format!("si {}", ptxt(*p)),
+            Op::Dsa(p) => format!("dsa {}", ptxt(*p)),
+            Op::Dsi(p) => format!("dsi {}", ptxt(*p)),
+            Op::Ea(p) => format!("ea {}", ptxt(*p)),
+            Op::Ka(p) => format!("ka {}", ptxt(*p)),
+            Op::Dea(p) => format!("dea {}", ptxt(*p)),
+            Op::Dka(p) => format!("dka {}", ptxt(*p)),
+            Op::Csa(p) => format!("csa {}", ptxt(*p)),
+            Op::Csi(p) => format!("csi {}", ptxt(*p)),
+            Op::Cea(p) => format!("cea {}", ptxt(*p)),
+            Op::Cka(p) => format!("cka {}", ptxt(*p)),
+            Op::Xsa(p) => format!("xsa {}", ptxt(*p)),
+            Op::Xsi(p) => format!("xsi {}", ptxt(*p)),
             Op::Adv(d) => format!("adv {d}"),
             Op::AdvAbort(d, i) => format!("advabort {d} {i}"),
             Op::AdvStop(d) => format!("advstop {d}"),
@@ -299,20 +424,35 @@ impl Op {
             Op::Drain => "drain".into(),
             Op::Hold => "hold".into(),
             Op::PsRelease => "psrelease".into(),
+            Op::Drop(i) => format!("drop {i}"),
+            Op::AdvDrop(d, i) => format!("advdrop {d} {i}"),
+            Op::Fail => "fail".into(),
+            Op::AdvFail(d) => format!("advfail {d}"),
+            Op::FailP => "failp".into(),
+            Op::StartHold => "starthold".into(),
+            Op::Started => "started".into(),
+            Op::AdvFailP(d) => format!("advfailp {d}"),
         }
     }
     fn parse(s: &str) -> Option<Op> {
         let w: Vec<&str> = s.split_whitespace().filter(|w| !w.starts_with("h=")).collect();
         let n = |i: usize| w.get(i).and_then(|x| x.parse::<u64>().ok());
+        let pp = |i: usize| w.get(i).and_then(|x| pparse(x));
         Some(match *w.first()? {
-            "sa" => Op::Sa(n(1)?),
-            "si" => Op::Si(n(1)?),
-            "dsa" => Op::Dsa(n(1)?),
-            "dsi" => Op::Dsi(n(1)?),
-            "ea" => Op::Ea(n(1)?),
-            "ka" => Op::Ka(n(1)?),
-            "dea" => Op::Dea(n(1)?),
-            "dka" => Op::Dka(n(1)?),
+            "sa" => Op::Sa(pp(1)?),
+            "si" => Op::Si(pp(1)?),
+            "dsa" => Op::Dsa(pp(1)?),
+            "dsi" => Op::Dsi(pp(1)?),
+            "ea" => Op::Ea(pp(1)?),
+            "ka" => Op::Ka(pp(1)?),
+            "dea" => Op::Dea(pp(1)?),
+            "dka" => Op::Dka(pp(1)?),
+            "csa" => Op::Csa(pp(1)?),
+            "csi" => Op::Csi(pp(1)?),
+            "cea" => Op::Cea(pp(1)?),
+            "cka" => Op::Cka(pp(1)?),
+            "xsa" => Op::Xsa(pp(1)?),
+            "xsi" => Op::Xsi(pp(1)?),
             "adv" => Op::Adv(n(1)?),
             "advabort" => Op::AdvAbort(n(1)?, n(2)? as usize),
             "advstop" => Op::AdvStop(n(1)?),
@@ -324,6 +464,14 @@ impl Op {
             "drain" => Op::Drain,
             "hold" => Op::Hold,
             "psrelease" => Op::PsRelease,
+            "drop" => Op::Drop(n(1)? as usize),
+            "advdrop" => Op::AdvDrop(n(1)?, n(2)? as usize),
+            "fail" => Op::Fail,
+            "advfail" => Op::AdvFail(n(1)?),
+            "failp" => Op::FailP,
+            "starthold" => Op::StartHold,
+            "started" => Op::Started,
+            "advfailp" => Op::AdvFailP(n(1)?),
             _ => return None,
         })
     }
@@ -359,6 +507,8 @@ async fn run_case(tl: bool, ops: &[Op]) -> Vec<String> {
     let t0 = tokio::time::Instant::now();
     let sh = Arc::new(Mutex::new(Shared::default()));
     let gate = Arc::new(tokio::sync::watch::channel(false).0);
+    let start_gated = matches!(ops.first(), Some(Op::StartHold));
+    let sgate = Arc::new(tokio::sync::watch::channel(start_gated).0);
     let (watcher, _wh) = Actor::spawn(None, Watcher { sh: sh.clone(), t0 }, ()).await.expect("watcher");
     let mut tlw: Option<Tl> = None;
     let target = if tl {
@@ -369,7 +519,7 @@ async fn run_case(tl: bool, ops: &[Op]) -> Vec<String> {
         let (freezer, _fh) = Freezer::spawn(None, FreezerState { ack: ack_tx, thaw: thaw_rx }, spawner.clone())
             .await
             .expect("freezer");
-        let ctx = Ctx { sh: sh.clone(), clock: Clock::Cell(vnow.clone()), gate: gate.clone() };
+        let ctx = Ctx { sh: sh.clone(), clock: Clock::Cell(vnow.clone()), gate: gate.clone(), start_gate: sgate.clone() };
         let (target, _th) =
             TlTarget::spawn_linked(None, ctx, watcher.get_cell(), spawner.clone()).await.expect("tl target");
         quiesce().await;
@@ -382,16 +532,20 @@ async fn run_case(tl: bool, ops: &[Op]) -> Vec<String> {
         tlw = Some(w);
         target
     } else {
-        let ctx = Ctx { sh: sh.clone(), clock: Clock::Tokio(t0), gate: gate.clone() };
+        let ctx = Ctx { sh: sh.clone(), clock: Clock::Tokio(t0), gate: gate.clone(), start_gate: sgate.clone() };
         let (target, _th) = Actor::spawn_linked(None, Target(ctx), (), watcher.get_cell()).await.expect("target");
         target
     };
     quiesce().await;
     let mut timers: Vec<TimerRec> = Vec::new();
+    // handles dropped before their timer exists: dropped at creation ("fire and forget")
+    let mut predropped: std::collections::HashSet<usize> = Default::default();
     let mut out = Vec::new();
     let (mut n_att, mut n_hd) = (0usize, 0usize);
     for op in ops {
-        let ms = Duration::from_micros; // every op parameter is in µs
+        let ms = dur; // every op parameter is in µs
+        let adv_d = Duration::from_micros;
+        let n_before = timers.len();
         match op {
             Op::Sa(p) => {
                 let id = timers.len() as u32;
@@ -400,7 +554,7 @@ async fn run_case(tl: bool, ops: &[Op]) -> Vec<String> {
                     s2.lock().unwrap().attempts.push((id, 1, now_ms(t)));
                     (id, 1)
                 });
-                timers.push(TimerRec { h: Handle::Send(h), res: None });
+                timers.push(TimerRec::new(Handle::Send(h)));
             }
             Op::Si(p) => {
                 let id = timers.len() as u32;
@@ -411,7 +565,7 @@ async fn run_case(tl: bool, ops: &[Op]) -> Vec<String> {
                     s2.lock().unwrap().attempts.push((id, kk, now_ms(t)));
                     (id, kk)
                 });
-                timers.push(TimerRec { h: Handle::Unit(h), res: None });
+                timers.push(TimerRec::new(Handle::Unit(h)));
             }
             Op::Dsa(p) => {
                 let id = timers.len() as u32;
@@ -421,7 +575,7 @@ async fn run_case(tl: bool, ops: &[Op]) -> Vec<String> {
                     s2.lock().unwrap().attempts.push((id, 1, now_ms(t)));
                     DMsg(id, 1)
                 });
-                timers.push(TimerRec { h: Handle::SendD(h), res: None });
+                timers.push(TimerRec::new(Handle::SendD(h)));
             }
             Op::Dsi(p) => {
                 let id = timers.len() as u32;
@@ -433,26 +587,83 @@ async fn run_case(tl: bool, ops: &[Op]) -> Vec<String> {
                     s2.lock().unwrap().attempts.push((id, kk, now_ms(t)));
                     DMsg(id, kk)
                 });
-                timers.push(TimerRec { h: Handle::Unit(h), res: None });
+                timers.push(TimerRec::new(Handle::Unit(h)));
             }
-            Op::Ea(p) => timers.push(TimerRec { h: Handle::Unit(target.exit_after(ms(*p))), res: None }),
-            Op::Ka(p) => timers.push(TimerRec { h: Handle::Unit(target.kill_after(ms(*p))), res: None }),
+            Op::Ea(p) => timers.push(TimerRec::new(Handle::Unit(target.exit_after(ms(*p))))),
+            Op::Ka(p) => timers.push(TimerRec::new(Handle::Unit(target.kill_after(ms(*p))))),
             Op::Dea(p) => {
                 let d = target.get_derived::<DMsg>();
-                timers.push(TimerRec { h: Handle::Unit(d.exit_after(ms(*p))), res: None })
+                timers.push(TimerRec::new(Handle::Unit(d.exit_after(ms(*p)))))
             }
             Op::Dka(p) => {
                 let d = target.get_derived::<DMsg>();
-                timers.push(TimerRec { h: Handle::Unit(d.kill_after(ms(*p))), res: None })
+                timers.push(TimerRec::new(Handle::Unit(d.kill_after(ms(*p)))))
             }
-            Op::Adv(d) => tokio::time::advance(ms(*d)).await,
+            Op::Csa(p) => {
+                let id = timers.len() as u32;
+                let (s2, t) = (sh.clone(), t0);
+                let h = ractor::time::send_after::<(u32, u32), _>(ms(*p), target.get_cell(), move || {
+                    s2.lock().unwrap().attempts.push((id, 1, now_ms(t)));
+                    (id, 1)
+                });
+                timers.push(TimerRec::new(Handle::Send(h)));
+            }
+            Op::Csi(p) => {
+                let id = timers.len() as u32;
+                let (s2, t) = (sh.clone(), t0);
+                let k = AtomicU32::new(0);
+                let h = ractor::time::send_interval::<(u32, u32), _>(ms(*p), target.get_cell(), move || {
+                    let kk = k.fetch_add(1, Ordering::SeqCst) + 1;
+                    s2.lock().unwrap().attempts.push((id, kk, now_ms(t)));
+                    (id, kk)
+                });
+                timers.push(TimerRec::new(Handle::Unit(h)));
+            }
+            Op::Cea(p) => {
+                timers.push(TimerRec::new(Handle::Unit(ractor::time::exit_after(ms(*p), target.get_cell()))))
+            }
+            Op::Cka(p) => {
+                timers.push(TimerRec::new(Handle::Unit(ractor::time::kill_after(ms(*p), target.get_cell()))))
+            }
+            Op::Xsa(p) => {
+                let id = timers.len() as u32;
+                let (s2, t) = (sh.clone(), t0);
+                let h = ractor::time::send_after::<Wrong, _>(ms(*p), target.get_cell(), move || {
+                    s2.lock().unwrap().attempts.push((id, 1, now_ms(t)));
+                    Wrong(id, 1)
+                });
+                timers.push(TimerRec::new(Handle::SendX(h)));
+            }
+            Op::Xsi(p) => {
+                let id = timers.len() as u32;
+                let (s2, t) = (sh.clone(), t0);
+                let k = AtomicU32::new(0);
+                let h = ractor::time::send_interval::<Wrong, _>(ms(*p), target.get_cell(), move || {
+                    let kk = k.fetch_add(1, Ordering::SeqCst) + 1;
+                    s2.lock().unwrap().attempts.push((id, kk, now_ms(t)));
+                    Wrong(id, kk)
+                });
+                timers.push(TimerRec::new(Handle::Unit(h)));
+            }
+            Op::Adv(d) => tokio::time::advance(adv_d(*d)).await,
             Op::AdvAbort(d, i) => {
                 bump_clock(*d).await;
                 if let Some(t) = timers.get(*i) {
-                    match &t.h {
-                        Handle::Send(h) => h.abort(),
-                        Handle::SendD(h) => h.abort(),
-                        Handle::Unit(h) => h.abort(),
+                    t.abort();
+                }
+            }
+            Op::Drop(i) => match timers.get_mut(*i) {
+                Some(t) => t.h = None,
+                None => {
+                    predropped.insert(*i);
+                }
+            },
+            Op::AdvDrop(d, i) => {
+                bump_clock(*d).await;
+                match timers.get_mut(*i) {
+                    Some(t) => t.h = None,
+                    None => {
+                        predropped.insert(*i);
                     }
                 }
             }
@@ -481,11 +692,32 @@ async fn run_case(tl: bool, ops: &[Op]) -> Vec<String> {
             }
             Op::Abort(i) => {
                 if let Some(t) = timers.get(*i) {
-                    match &t.h {
-                        Handle::Send(h) => h.abort(),
-                        Handle::SendD(h) => h.abort(),
-                        Handle::Unit(h) => h.abort(),
-                    }
+                    t.abort();
+                }
+            }
+            Op::Fail => {
+                let _ = target.cast(POISON);
+            }
+            Op::FailP => {
+                let _ = target.cast(POISON_PANIC);
+            }
+            // armed at spawn (only meaningful as the first op of a case)
+            Op::StartHold => {}
+            Op::Started => {
+                let _ = sgate.send_replace(false);
+            }
+            Op::AdvFailP(d) => {
+                bump_clock(*d).await;
+                let _ = target.cast(POISON_PANIC);
+                if let Some(w) = tlw.as_mut() {
+                    w.run_target(now_ms(t0));
+                }
+            }
+            Op::AdvFail(d) => {
+                bump_clock(*d).await;
+                let _ = target.cast(POISON);
+                if let Some(w) = tlw.as_mut() {
+                    w.run_target(now_ms(t0));
                 }
             }
             Op::Stop => target.stop(Some("manual".into())),
@@ -500,6 +732,10 @@ async fn run_case(tl: bool, ops: &[Op]) -> Vec<String> {
                 let _ = gate.send_replace(false);
             }
         }
+        // a timer whose handle was given away beforehand: the `JoinHandle` is dropped at once
+        if timers.len() > n_before && predropped.contains(&n_before) {
+            timers[n_before].h = None;
+        }
         // every runnable timer task runs, then the target, then whoever the target woke (its supervisor)
         quiesce().await;
         if let Some(w) = tlw.as_mut() {
@@ -511,16 +747,26 @@ async fn run_case(tl: bool, ops: &[Op]) -> Vec<String> {
             if t.res.is_some() {
                 continue;
             }
-            let fin = match &t.h {
+            let Some(th) = t.h.as_mut() else { continue };
+            let fin = match &*th {
                 Handle::Send(h) => h.is_finished(),
+                Handle::SendX(h) => h.is_finished(),
                 Handle::SendD(h) => h.is_finished(),
                 Handle::Unit(h) => h.is_finished(),
             };
             if !fin {
                 continue;
             }
-            let r = match &mut t.h {
+            let r = match th {
                 Handle::Send(h) => match h.await {
+                    Ok(Ok(())) => "ok".to_string(),
+                    Ok(Err(MessagingErr::SendErr(_))) => "err".to_string(),
+                    Ok(Err(MessagingErr::ChannelClosed)) => "err:ChannelClosed".to_string(),
+                    Ok(Err(MessagingErr::InvalidActorType)) => "err:InvalidActorType".to_string(),
+                    Err(e) if e.is_cancelled() => "cancelled".to_string(),
+                    Err(_) => "panic".to_string(),
+                },
+                Handle::SendX(h) => match h.await {
                     Ok(Ok(())) => "ok".to_string(),
                     Ok(Err(MessagingErr::SendErr(_))) => "err".to_string(),
                     Ok(Err(MessagingErr::ChannelClosed)) => "err:ChannelClosed".to_string(),
@@ -547,7 +793,23 @@ async fn run_case(tl: bool, ops: &[Op]) -> Vec<String> {
         let res = if timers.is_empty() {
             "-".to_string()
         } else {
-            timers.iter().map(|t| t.res.clone().unwrap_or_else(|| "P".into())).collect::<Vec<_>>().join(",")
+            timers
+                .iter()
+                .map(|t| match (&t.h, &t.res) {
+                    // a dropped handle: all its former owner can still learn (through the `AbortHandle`)
+                    // is whether the detached task is gone
+                    (None, _) => {
+                        if t.ah.is_finished() {
+                            "dF".to_string()
+                        } else {
+                            "dP".to_string()
+                        }
+                    }
+                    (Some(_), Some(r)) => r.clone(),
+                    (Some(_), None) => "P".to_string(),
+                })
+                .collect::<Vec<_>>()
+                .join(",")
         };
         let (att, hd, exit, ps) = {
             let s = sh.lock().unwrap();
@@ -561,6 +823,9 @@ async fn run_case(tl: bool, ops: &[Op]) -> Vec<String> {
             // inside the gated `post_stop`: whatever the status says, the message loop is over
             (_, None, Some(t)) => format!("PostStop@{t}"),
             (ActorStatus::Running, None, None) => "Running".to_string(),
+            (ActorStatus::Starting, None, None) => "Starting".to_string(),
+            // `drain()` on a target whose message loop has not begun: it stays `Draining` until it starts
+            (ActorStatus::Draining, None, None) if start_gated => "Draining".to_string(),
             (s, e, _) => format!("{s:?}:{e:?}"),
         };
         let tgt = if tlw.as_ref().map(|w| w.stalled).unwrap_or(false) { format!("{tgt} <tl thread stalled>") } else { tgt };
@@ -568,13 +833,10 @@ async fn run_case(tl: bool, ops: &[Op]) -> Vec<String> {
     }
     // tidy up: nothing may outlive the case
     for t in &timers {
-        match &t.h {
-            Handle::Send(h) => h.abort(),
-            Handle::SendD(h) => h.abort(),
-            Handle::Unit(h) => h.abort(),
-        }
+        t.ah.abort();
     }
     let _ = gate.send_replace(false);
+    let _ = sgate.send_replace(false);
     target.kill();
     if let Some(w) = tlw.as_mut() {
         // the freezer's cycle ends, the thread runs freely and winds down
@@ -599,6 +861,13 @@ async fn run_case(tl: bool, ops: &[Op]) -> Vec<String> {
 fn gen_case(rng: &mut Rng, st: &mut Stats) -> Vec<Op> {
     let n = rng.range(3, 16);
     let mut ops = Vec::new();
+    // an eighth of the cases: the target is still `Starting` (gated `post_start`) for a while
+    let mut starting = rng.chance(1, 8);
+    if starting {
+        ops.push(Op::StartHold);
+        st.bump("cases_with_starting_target");
+        st.bump("starthold");
+    }
     let mut n_timers = 0usize;
     let mut have_exit_after = false;
     // a third of the cases gate `post_stop` early on: the target then sits in `post_stop` (stopped
@@ -613,14 +882,17 @@ fn gen_case(rng: &mut Rng, st: &mut Stats) -> Vec<Op> {
     // and advances that are not whole milliseconds (tokio's wheel rounds deadlines up to 1 ms)
     let fine = rng.chance(1, 2);
     let per: Vec<u64> = if fine {
-        vec![0, 1, 400, 900, 999, 1000, 1001, 1500, 2000, 2500, 2500, 3000, 4700, 8000]
+        vec![0, 1, 400, 900, 999, 1000, 1001, 1500, 2000, 2500, 2500, 3000, 4700, 8000, PMAX]
     } else {
-        [0u64, 0, 1, 1, 2, 3, 3, 5, 8, 13].iter().map(|x| x * 1000).collect()
+        let mut v: Vec<u64> = [0u64, 0, 1, 1, 2, 3, 3, 5, 8, 13].iter().map(|x| x * 1000).collect();
+        v.push(PHUGE);
+        v
     };
     let iper: Vec<u64> = if fine {
-        vec![300, 700, 1000, 1500, 2500, 2500, 3000, 7100]
+        // 0: `interval(Duration::ZERO)` panics inside the task
+        vec![0, 300, 700, 1000, 1500, 2500, 2500, 3000, 7100, PHUGE]
     } else {
-        [1u64, 1, 2, 3, 5, 7].iter().map(|x| x * 1000).collect()
+        [0u64, 1, 1, 2, 3, 5, 7, PMAX].iter().map(|x| if *x == PMAX { PMAX } else { x * 1000 }).collect()
     };
     let adv: Vec<u64> = if fine {
         vec![0, 1, 300, 500, 500, 999, 1000, 1000, 1500, 2000, 2500, 3000, 5000, 10400, 25000]
@@ -636,6 +908,11 @@ fn gen_case(rng: &mut Rng, st: &mut Stats) -> Vec<Op> {
             st.bump("hold");
         }
         let r = rng.below(100);
+        if starting && n_timers > 0 && rng.chance(1, 9) {
+            starting = false;
+            st.bump("started");
+            ops.push(Op::Started);
+        }
         let op = if gated && (80..86).contains(&r) && n_timers > 0 {
             Op::PsRelease
         } else if gated && r >= 86 {
@@ -652,10 +929,18 @@ fn gen_case(rng: &mut Rng, st: &mut Stats) -> Vec<Op> {
         } else if r < 34 || n_timers == 0 {
             let k = rng.below(100);
             n_timers += 1;
-            if k < 27 {
+            if k < 2 {
+                Op::Xsa(*rng.pick(&per))
+            } else if k < 6 {
+                Op::Csa(*rng.pick(&per))
+            } else if k < 27 {
                 Op::Sa(*rng.pick(&per))
             } else if k < 35 {
                 Op::Dsa(*rng.pick(&per))
+            } else if k < 37 {
+                Op::Xsi(*rng.pick(&iper))
+            } else if k < 41 {
+                Op::Csi(*rng.pick(&iper))
             } else if k < 62 {
                 Op::Si(*rng.pick(&iper))
             } else if k < 70 {
@@ -664,11 +949,15 @@ fn gen_case(rng: &mut Rng, st: &mut Stats) -> Vec<Op> {
                 // at most one exit_after per case: which of two simultaneous stop requests
                 // wins depends on tokio's wheel order, which the model does not describe
                 have_exit_after = true;
-                if rng.chance(1, 3) {
+                if rng.chance(1, 5) {
+                    Op::Cea(*rng.pick(&per))
+                } else if rng.chance(1, 3) {
                     Op::Dea(*rng.pick(&per))
                 } else {
                     Op::Ea(*rng.pick(&per))
                 }
+            } else if rng.chance(1, 5) {
+                Op::Cka(*rng.pick(&per))
             } else if rng.chance(1, 3) {
                 Op::Dka(*rng.pick(&per))
             } else {
@@ -676,20 +965,39 @@ fn gen_case(rng: &mut Rng, st: &mut Stats) -> Vec<Op> {
             }
         } else if r < 66 {
             Op::Adv(*rng.pick(&adv))
-        } else if r < 76 {
+        } else if r < 74 {
             Op::AdvAbort(*rng.pick(&adv), rng.below(n_timers as u64) as usize)
+        } else if r < 78 {
+            // sometimes the handle of the NEXT timer: dropped at creation (fire and forget)
+            Op::Drop(rng.below(n_timers as u64 + 1) as usize)
+        } else if r < 80 {
+            Op::AdvDrop(*rng.pick(&adv), rng.below(n_timers as u64) as usize)
         } else if r < 86 {
             Op::Abort(rng.below(n_timers as u64) as usize)
         } else if r < 91 {
-            match rng.below(3) {
+            match rng.below(4) {
                 0 => Op::AdvStop(*rng.pick(&adv)),
                 1 => Op::AdvKill(*rng.pick(&adv)),
+                2 => {
+                    if rng.chance(1, 2) {
+                        Op::AdvFail(*rng.pick(&adv))
+                    } else {
+                        Op::AdvFailP(*rng.pick(&adv))
+                    }
+                }
                 _ => Op::AdvDrain(*rng.pick(&adv)),
             }
         } else {
-            match rng.below(3) {
+            match rng.below(4) {
                 0 => Op::Stop,
                 1 => Op::Kill,
+                2 => {
+                    if rng.chance(1, 2) {
+                        Op::Fail
+                    } else {
+                        Op::FailP
+                    }
+                }
                 _ => Op::Drain,
             }
         };
@@ -712,11 +1020,20 @@ fn ms_case(ops: Vec<Op>) -> Vec<Op> {
             Ka(p) => Ka(p * 1000),
             Dea(p) => Dea(p * 1000),
             Dka(p) => Dka(p * 1000),
+            Csa(p) => Csa(p * 1000),
+            Csi(p) => Csi(p * 1000),
+            Cea(p) => Cea(p * 1000),
+            Cka(p) => Cka(p * 1000),
+            Xsa(p) => Xsa(p * 1000),
+            Xsi(p) => Xsi(p * 1000),
             Adv(d) => Adv(d * 1000),
             AdvAbort(d, i) => AdvAbort(d * 1000, i),
             AdvStop(d) => AdvStop(d * 1000),
             AdvKill(d) => AdvKill(d * 1000),
             AdvDrain(d) => AdvDrain(d * 1000),
+            AdvDrop(d, i) => AdvDrop(d * 1000, i),
+            AdvFail(d) => AdvFail(d * 1000),
+            AdvFailP(d) => AdvFailP(d * 1000),
             o => o,
         })
         .collect()
@@ -776,6 +1093,110 @@ fn fixed_cases() -> Vec<Vec<Op>> {
         vec![Dka(2), AdvAbort(2, 0), Adv(5)],
         vec![Dea(7), Dka(7), Adv(7)],
         vec![Dka(2), Stop, Adv(2)],
+        // the free functions of time.rs called with an ActorCell
+        vec![Csa(0)],
+        vec![Cea(0)],
+        vec![Cka(0)],
+        vec![Csa(5), Csi(3), Adv(3), Adv(2), AdvAbort(1, 1), Kill, Adv(4)],
+        vec![Csi(3), Adv(3), Adv(3), Adv(2), Adv(1), Adv(10)],
+        vec![Cea(7), Adv(6), Adv(1)],
+        vec![Cka(2), Adv(1), Adv(1)],
+        vec![Csa(5), Cka(5), Adv(5)],
+        vec![Cea(7), Cka(7), Adv(7)],
+        vec![Kill, Csi(3), Csa(0), Csa(2), Cea(1), Cka(1), Adv(5)],
+        vec![Hold, Stop, Csa(0), Csi(2), Adv(2), PsRelease],
+        // the free functions with a message type that is not the target's: one failing attempt (InvalidActorType)
+        vec![Xsa(0)],
+        vec![Xsa(5), Adv(4), Adv(1), Adv(1)],
+        vec![Xsi(3), Adv(3), Adv(3), Adv(3)],
+        vec![Xsi(3), Si(3), Xsa(2), Sa(2), Adv(2), Adv(1), Adv(3)],
+        vec![Xsi(3), Adv(2), Kill, Adv(1), Adv(3)],
+        vec![Kill, Xsi(3), Xsa(0), Adv(3)],
+        vec![Xsa(5), Xsi(3), AdvAbort(3, 1), AdvAbort(2, 0), Adv(1)],
+        vec![Xsa(5), Xsi(3), Drop(0), Drop(1), Adv(5)],
+        vec![Hold, Stop, Xsi(2), Xsa(1), Adv(2), PsRelease],
+        vec![Xsi(0)],
+        vec![Xsi(3), Adv(40)],
+        // the target is still Starting (gated post_start): sends queue up, a stop request waits, a kill is obeyed
+        vec![StartHold, Sa(2), Adv(3), Adv(4), Started],
+        vec![StartHold, Si(3), Sa(2), Ea(4), Adv(3), Adv(3), Adv(4), Started],
+        vec![StartHold, Si(3), Adv(3), Adv(3), Started, Adv(3)],
+        vec![StartHold, Ka(2), Sa(1), Adv(1), Adv(1), Started],
+        vec![StartHold, Sa(1), Adv(1), Kill, Started],
+        vec![StartHold, Sa(1), Stop, Adv(1), Started, Adv(1)],
+        vec![StartHold, Sa(1), Adv(1), AdvStop(1), Adv(1), Started],
+        vec![StartHold, Ea(0), Sa(0), Started],
+        vec![StartHold, Hold, Si(1), Adv(2), Ea(1), Adv(1), Started, Adv(2), PsRelease],
+        vec![StartHold, Sa(1), Adv(1), Fail, Sa(1), Adv(1), Started],
+        vec![StartHold, Si(2), Drop(0), Sa(3), AdvAbort(2, 1), Adv(2), Started, Adv(2)],
+        vec![StartHold, Xsi(2), Dsi(2), Csa(3), Adv(2), Adv(2), Started],
+        vec![StartHold, Started, Sa(1), Adv(1)],
+        // drain() on a Starting target: admission closes at the call, the backlog is handled when the loop begins
+        vec![StartHold, Si(3), Sa(1), Drain, Adv(3), Started, Adv(3)],
+        vec![StartHold, Si(3), Adv(3), AdvDrain(1), Sa(1), Adv(2), Started, Adv(1)],
+        vec![StartHold, Sa(1), Adv(1), Drain, Ka(1), Adv(1), Started],
+        vec![StartHold, Sa(1), Adv(1), Drain, Stop, Started],
+        vec![StartHold, Hold, Sa(1), Adv(1), Drain, Started, Adv(1), PsRelease],
+        // the target FAILS (handler returns Err): no post_stop, ActorFailed; timers find a dead target
+        vec![Sa(5), Fail, Adv(5)],
+        vec![Si(3), Adv(3), Fail, Adv(3), Adv(3)],
+        vec![Sa(5), AdvFail(5), Adv(1)],
+        vec![Sa(5), Adv(5), Fail, Abort(0)],
+        vec![Hold, Si(2), Fail, Adv(2), PsRelease],
+        vec![Hold, Stop, Fail, Sa(1), Adv(1), PsRelease],
+        vec![Ea(5), AdvFail(5), Adv(1)],
+        vec![Ea(5), Ka(5), Sa(5), Adv(4), Fail, Adv(1)],
+        vec![Ka(2), Fail, Adv(2)],
+        vec![Fail, Sa(0), Si(1), Ea(0), Ka(0), Adv(1)],
+        vec![Stop, Fail, Sa(0)],
+        vec![Drain, Fail, Sa(0)],
+        vec![Fail, Fail, Kill],
+        vec![Xsa(2), Xsi(1), Fail, Adv(2)],
+        vec![Sa(2), Si(1), Drop(0), Drop(1), Fail, Adv(2)],
+        vec![Dsa(5), Dsi(3), Csa(5), AdvFail(3), Adv(2), Adv(3)],
+        vec![Sa(5), FailP, Adv(5)],
+        vec![Si(3), Adv(3), AdvFailP(3), Adv(3)],
+        vec![Hold, Ea(2), Si(1), FailP, Adv(2), PsRelease],
+        // send_interval(Duration::ZERO): tokio's interval() panics inside the spawned task
+        vec![Si(0)],
+        vec![Dsi(0)],
+        vec![Csi(0)],
+        vec![Si(0), Adv(5), Abort(0), Abort(0)],
+        vec![Kill, Si(0), Dsi(0)],
+        vec![Sa(5), Si(0), Si(3), Adv(3), Adv(2), Adv(1)],
+        vec![Hold, Stop, Si(0), Csi(0), PsRelease],
+        vec![Si(0), Drop(0), Adv(1)],
+        vec![Drop(0), Si(0), Adv(1)],
+        // dropped handles: the task is detached, not cancelled
+        vec![Sa(5), Drop(0), Adv(4), Adv(1), Adv(1)],
+        vec![Sa(5), AdvDrop(5, 0), Adv(1)],
+        vec![Sa(5), Adv(5), Drop(0), Adv(1)],
+        vec![Sa(5), Adv(6), Drop(0)],
+        vec![Drop(0), Sa(5), Adv(5)],
+        vec![Sa(5), Sa(5), AdvDrop(5, 0), Abort(1)],
+        vec![Sa(5), Sa(5), Drop(0), AdvAbort(5, 1), Adv(1)],
+        vec![Sa(5), Sa(5), Adv(4), Drop(0), Abort(1), Adv(1)],
+        // ... an AbortHandle taken before the drop still cancels
+        vec![Sa(5), Drop(0), Abort(0), Adv(5)],
+        vec![Sa(5), Drop(0), AdvAbort(5, 0), Adv(1)],
+        vec![Sa(5), Drop(0), Adv(5), Abort(0)],
+        vec![Si(3), Drop(0), Adv(3), Adv(3), Kill, Adv(3), Adv(3)],
+        vec![Si(3), Adv(3), AdvDrop(3, 0), Adv(3), Abort(0), Adv(3)],
+        vec![Dsi(2), Dsa(5), Drop(0), Drop(1), Adv(5), Stop, Adv(2)],
+        vec![Csi(2), Csa(5), Drop(1), Drop(0), Adv(5), Drain, Adv(2)],
+        vec![Ea(7), Drop(0), Adv(6), Adv(1)],
+        vec![Ka(2), AdvDrop(2, 0)],
+        vec![Dea(7), Dka(9), Drop(0), Drop(1), Adv(7)],
+        vec![Ea(7), Drop(0), AdvAbort(7, 0), Adv(1)],
+        vec![Sa(5), Kill, Drop(0), Adv(5)],
+        vec![Hold, Sa(2), Si(1), Drop(0), Drop(1), Stop, Adv(2), PsRelease],
+        // abort after completion (no effect), abort twice
+        vec![Sa(5), Adv(5), Abort(0), Abort(0), Adv(1)],
+        vec![Sa(5), Abort(0), Abort(0), Adv(5)],
+        vec![Sa(5), AdvAbort(5, 0), Abort(0), AdvAbort(1, 0)],
+        vec![Si(3), Adv(3), Kill, Adv(3), Abort(0), Abort(0)],
+        vec![Ea(7), Adv(7), Abort(0)],
+        vec![Ka(2), Abort(0), AdvAbort(2, 0), Adv(1)],
         // the target sits in a gated post_stop (stopped accepting, not gone)
         vec![Si(3), Hold, Adv(1), Stop, Sa(2), Adv(2), Adv(4), PsRelease],
         vec![Hold, Stop, Sa(0)],
@@ -819,6 +1240,21 @@ fn fixed_cases() -> Vec<Vec<Op>> {
         vec![Sa(900), Dka(999), Adv(999), Adv(1)],
         vec![Si(700), Hold, AdvStop(1500), Adv(500), Adv(1000), Adv(1000), PsRelease],
         vec![Hold, Adv(300), Stop, Sa(700), Si(300), Adv(700), Adv(300), PsRelease],
+        vec![Cea(2500), Adv(2000), Adv(1000)],
+        vec![Adv(1500), Csa(700), Cka(1500), Adv(500), Adv(500), Adv(500), Adv(500)],
+        vec![Csi(300), Adv(500), Adv(500), Adv(1000)],
+        vec![Xsi(300), Xsa(700), Adv(500), Adv(500), Adv(1000)],
+        vec![Si(700), Sa(1500), AdvFail(1400), Adv(100), Adv(600)],
+        vec![Adv(1500), Xsi(700), Xsa(2500), Adv(500), Adv(500), Adv(500), Adv(2000)],
+        // period 0 off the millisecond grid: the wheel rounds the deadline up like any other
+        vec![Adv(1500), Sa(0), Ka(0), Adv(499), Adv(1)],
+        vec![Adv(300), Ea(0), Si(0), Adv(700)],
+        // periods beyond any horizon: Duration::MAX (tokio: far_future), u64::MAX - 1 µs; an hour, a day later: nothing
+        vec![Sa(PMAX), Si(PMAX), Ea(PMAX), Ka(PMAX), Adv(3_600_000_000), Adv(1)],
+        vec![Sa(PHUGE), Dsa(PHUGE), Csi(PHUGE), Dsi(PMAX), Adv(86_400_000_000), Kill, Adv(1000)],
+        vec![Dea(PHUGE), Cka(PHUGE), Cea(PMAX), Dka(PMAX), Adv(1000), Stop, Adv(1000)],
+        vec![Sa(PMAX), Abort(0), Ea(PHUGE), Drop(1), Adv(1000), Abort(1)],
+        vec![Sa(5000), Si(PHUGE), Ka(PMAX), Adv(5000), AdvAbort(1000, 1), AdvDrop(1000, 2), Adv(1_000_000_000)],
     ]);
     all
 }
@@ -831,6 +1267,15 @@ fn main() {
     let mut rng = Rng::new(seed);
     let mut st = Stats::default();
     let mut log = Log::create(std::path::Path::new(&out)).unwrap();
+    // `send_interval(Duration::ZERO)` panics inside its task (tokio turns it into a JoinError): keep stderr readable
+    let default_hook = std::panic::take_hook();
+    std::panic::set_hook(Box::new(move |info| {
+        let quiet = info.payload().downcast_ref::<&str>().map(|m| m.contains("must be non-zero") || *m == "poison").unwrap_or(false)
+            || info.payload().downcast_ref::<String>().map(|m| m.contains("must be non-zero")).unwrap_or(false);
+        if !quiet {
+            default_hook(info);
+        }
+    }));
     // (thread-local target?, ops)
     let mut all: Vec<(bool, Vec<Op>)> = Vec::new();
     // corpus / replay files (one op per line, `case` separates) run first
@@ -882,8 +1327,39 @@ fn main() {
         let mut h: u64 = if *tl { 0x84222325cbf29ce4 } else { 0xcbf29ce484222325 };
         match res {
             Ok(obs) => {
+                let mut prev_res: Vec<String> = Vec::new();
                 for (op, o) in ops.iter().zip(obs.iter()) {
                     let t = op.text();
+                    let cur_res: Vec<String> = o
+                        .split_whitespace()
+                        .find_map(|w| w.strip_prefix("res="))
+                        .map(|r| if r == "-" { Vec::new() } else { r.split(',').map(|x| x.to_string()).collect() })
+                        .unwrap_or_default();
+                    match op {
+                        Op::Abort(i) | Op::AdvAbort(_, i) => match prev_res.get(*i).map(|x| x.as_str()) {
+                            Some("cancelled") => st.bump("abort_of_cancelled_timer"),
+                            Some("P") => st.bump("abort_of_pending_timer"),
+                            Some("dP") => st.bump("abort_of_detached_pending_timer"),
+                            Some(_) => st.bump("abort_after_completion"),
+                            None => st.bump("abort_of_unknown_timer"),
+                        },
+                        Op::Drop(i) | Op::AdvDrop(_, i) => match prev_res.get(*i).map(|x| x.as_str()) {
+                            Some("P") => st.bump("drop_of_pending_timer"),
+                            Some("dP") | Some("dF") => st.bump("drop_twice"),
+                            Some(_) => st.bump("drop_after_completion"),
+                            None => st.bump("drop_before_creation"),
+                        },
+                        _ => {}
+                    }
+                    for (a, b) in prev_res.iter().zip(cur_res.iter()) {
+                        if a == "dP" && b == "dF" {
+                            st.bump(if o.contains("att=-") { "detached_task_ended_without_sending" } else { "detached_task_acted" });
+                        }
+                    }
+                    if cur_res.iter().any(|r| r == "panic") && !prev_res.iter().any(|r| r == "panic") {
+                        st.bump("obs_task_panicked");
+                    }
+                    prev_res = cur_res;
                     for b in t.bytes().chain([b'\n']) {
                         h = (h ^ b as u64).wrapping_mul(0x100000001b3);
                     }
@@ -900,6 +1376,15 @@ fn main() {
                     }
                     if o.contains("Stopped:") {
                         st.bump("obs_target_stopped");
+                    }
+                    if o.contains("tgt=Starting") {
+                        st.bump("obs_target_starting");
+                        if !o.contains("att=-") {
+                            st.bump("obs_attempt_while_starting");
+                        }
+                    }
+                    if o.contains("<failed>") {
+                        st.bump("obs_target_failed");
                     }
                     if o.contains("PostStop@") {
                         st.bump("obs_target_in_post_stop");
